@@ -457,7 +457,7 @@ class C08(Check):
             "loads(dumps(m)) == m and decoded args equal an independent JSON/pickle model of what was sent. "
             "Non-trivial: >=2 supplied arguments of which >=1 annotated; distinct = distinct (signature shape, "
             "split, value classes).")
-    floors = {"counters.params_checked": 20000, "counters.annotated_converted": 2000}
+    floors = {"counters.cli_command_lines": 30, "counters.api_receivers_built": 30, "counters.params_checked": 20000, "counters.annotated_converted": 2000}
     quick_cases = 24000
     thorough_cases = 1000000
     thorough_time = 400.0
@@ -466,6 +466,18 @@ class C08(Check):
         "JSON-representable = finite floats, str without lone surrogates, str dict keys, lists (no tuples/bytes)",
         "'convertible' is pydantic's lax-mode TypeAdapter.validate_python, as documented for parse_params",
     ]
+
+    def shard_epilogue(self, tier: str, shard: int, rng: random.Random) -> Dict[str, int]:
+        """'with parsing disabled everything arrives as sent': the switch as the command line (--no-parse) and
+        taskiq.api.run_receiver_task(validate_params=...) set it must reach every Receiver that is built."""
+        from mon import wiring
+
+        return wiring.epilogue(tier, shard, rng, ["validate_params"])
+
+    def post_merge(self, merged: Dict[str, Any]) -> None:
+        from mon import wiring
+
+        wiring.merge_violation(merged, "the worker is not built with the configured validate_params")
 
     def cases(self, rng: random.Random, tier: str, shard: int, nshards: int) -> Iterator[Any]:
         while True:
